@@ -9,7 +9,8 @@
     b58dec <str>                          -> ok <bytes> | none
     addr <str>                            -> ok <kind> <ver> <payload> <outscript|panic> <restr> | err <class>
     pk <script> <testnet:0|1>             -> ok <str> <outscript|panic> | none
-    wifdec <str>                          -> ok <ver> <key> <compr:0|1> <canonical:0|1> | err b58|short|long|checksum
+    wifdec <str>                          -> ok <ver> <key> <compr:0|1> <canonical:0|1> | err b58|short|long|checksum|flag
+                                             (flag: 38-byte payload whose byte 33 is not 01 — refused since fix 6903a886)
     wifenc <ver> <key> <compr:0|1>        -> ok <str>
     hist <op> <op> ...                    -> ok <res> ... fin <Enc58str> <Checksum|nil>     (one object, from new(BtcAddr))
          ops: S:<hrp>:<ver>:<prog> | N (SegwitProg=nil) | E:<str> | C:<bytes>|C:nil | V:<n> | H:<bytes> | s (String()) | o (OutScript())
